@@ -252,6 +252,9 @@ def packet_markers(log, sizes=None, refuse=()):
                     type_=src_.type_, value=getattr(src_, "value", None))
             log.append(("from_request", o.kind, src_.tag))
             return o
+        if isinstance(f, ast.Attribute) and f.attr == "tag_only_message" and isinstance(f.value, ast.Name) and isinstance(env.get(f.value.id), Obj) and "kind" in env[f.value.id].__dict__:
+            # the message without its 2-byte sequence count
+            return bytes(max(sizes.get(env[f.value.id].tag, 20) - 2, 0))
         if isinstance(f, ast.Attribute) and f.attr in ("set_bit", "build_message") and isinstance(f.value, ast.Name) and isinstance(env.get(f.value.id), Obj) and "kind" in env[f.value.id].__dict__:
             o = env[f.value.id]
             if f.attr == "build_message":
@@ -320,7 +323,9 @@ def d2_12(ctx):
         ("BOOL array slice is an ordinary write", _wparsed(4, "f[32]{40}", "f[1]", value=[True] * 40, bit=0, bool_elements=40, info=DWORD, elements=2), ("WT", "SEQ", "f[1]", 2, 4, "UID", b"<f[1]>", True), None),
         ("value too large for the connection", _wparsed(4, "big{400}", "big", value=[0] * 400, elements=400), ("WTF", "from", ("WT", "SEQ", "big", 400, 4, "UID", b"<big>", True), "SEQ", ()), None),
         ("message + value exactly the connection size", _wparsed(4, "fit", value=1), ("WT", "SEQ", "fit", 1, 4, "UID", b"<fit>", True), None),
-        ("message + value one byte over the connection size", _wparsed(4, "over", value=1), ("WTF", "from", ("WT", "SEQ", "over", 1, 4, "UID", b"<over>", True), "SEQ", ()), None),
+        ("message one byte over the connection size", _wparsed(4, "over", value=1), ("WTF", "from", ("WT", "SEQ", "over", 1, 4, "UID", b"<over>", True), "SEQ", ()), None),
+        ("message two bytes over the connection size", _wparsed(4, "ovr2", value=1), ("WTF", "from", ("WT", "SEQ", "ovr2", 1, 4, "UID", b"<ovr2>", True), "SEQ", ()), None),
+        ("message fits, message + value would not (either form is within the connection size)", _wparsed(4, "zone", value=1), "either", None),
         ("request that failed to parse", _wparsed(4, "bad", error="Tag doesn't exist - bad"), None, "Tag doesn't exist - bad"),
         ("bit outside the type", _wparsed(4, "d1.40", "d1", value=True, bit=40), None, "Invalid Tag Request"),
         ("type the Write Tag service refuses", _wparsed(4, "odd", value=1), None, "Invalid Tag Request"),
@@ -328,12 +333,15 @@ def d2_12(ctx):
     for label, parsed, want, err in cases:
         log = []
         p = dict(parsed)
-        kind, res = run_function(ctx, lx.module, fn, {"self": _driver(), fn.args.args[1].arg: p}, call_hook=chain(enc, packet_markers(log, sizes={"big": 600, "fit": 495, "over": 495}, refuse=("odd",))), deep=False)
+        kind, res = run_function(ctx, lx.module, fn, {"self": _driver(), fn.args.args[1].arg: p}, call_hook=chain(enc, packet_markers(log, sizes={"big": 600, "fit": 495, "over": 501, "ovr2": 502, "zone": 498}, refuse=("odd",))), deep=False)
         key = ckey(lx.key + "._write_build_single_request", f"witness:{label}")
         if kind == "unknown":
             ctx.undecided(key, fn, f"_write_build_single_request not foldable on {label}: {res}")
             continue
         got = describe(res) if kind == "return" else res
+        if want == "either":
+            plain = ("WT", "SEQ", "zone", 1, 4, "UID", b"<zone>", True)
+            want = got if got in (plain, ("WTF", "from", plain, "SEQ", ())) else plain
         ok = kind == "return" and got == want and (err is None and not p.get("error") or err is not None and str(p.get("error", "")).startswith(err))
         ctx.check(ok, key, fn, f"{label}: {want!r}" + (f", error {err!r}" if err else ""), f"single-request builder on {label} gives {kind} {got!r} with error {p.get('error')!r}; expected {want!r}" + (f" and an error starting {err!r}" if err else " and no error"), witness=label)
 
@@ -1321,6 +1329,10 @@ def _array_rule(ctx):
                     if not (isinstance(a, list) and len(a) == 8 * et.size and all(isinstance(x, bool) for x in a)):
                         raise _Raise("DataError")
                     return sum(1 << i for i, b_ in enumerate(a) if b_).to_bytes(et.size, "little")
+                if isinstance(a, float):
+                    import math as _math
+
+                    return b"\x80" if _math.copysign(1.0, a) < 0 else b"\x00"  # (a witness real: only its sign is encoded)
                 if not isinstance(a, int) or isinstance(a, bool) or not 0 <= a < 256:
                     raise _Raise("DataError")
                 return bytes([a])
@@ -1351,6 +1363,9 @@ def _array_rule(ctx):
         ("USINT-prefixed, empty", cls_w(usint, elem), [], None, ("return", b"\x00")),
         ("unbounded", cls_w(None, elem), [7, 8, 9], None, ("return", b"\x07\x08\x09")),
         ("value outside the element type", cls_w(2, elem), [1, 300], None, ("raise", "DataError")),
+        ("values that compare equal but encode differently (0.0, -0.0)", cls_w(2, elem), [0.0, -0.0], None, ("return", b"\x00\x80")),
+        ("values that compare equal but encode differently (-0.0, 0.0, 0.0), unbounded", cls_w(None, elem), [-0.0, 0.0, 0.0], None, ("return", b"\x80\x00\x00")),
+        ("equal values", cls_w(3, elem), [9, 9, 9], None, ("return", b"\x09\x09\x09")),
         ("not a sequence", cls_w(2, elem), None, None, ("raise", "DataError")),
         ("bit strings, fixed 2, 16 bools", cls_w(2, bits), b16, None, ("return", pack(b16))),
         ("bit strings, fixed 2, 15 bools", cls_w(2, bits), b16[:15], None, ("raise", "DataError")),
@@ -1686,6 +1701,86 @@ def d5_18(ctx):
         ctx.check(ok, key, fn, f"{label}: {want}", f"member record {rec.hex()} ({label}) gives {kind} {got!r} with structure lookups {lookups!r}; expected {want!r}" + (f" after one lookup of {want_lookup!r}" if want_lookup else " without a structure lookup"), witness=label)
 
 
+@rule("C05", "D5.19", "T-WITNESS", floor=2)
+def d5_19(ctx):
+    """_get_structure_makeup and _get_data_type folded on witness template instances (the attribute request, the template read and
+    the template parser are markers): every template instance is asked for once and kept under its own instance id; every
+    instance gets the definition parsed from its own template - also when two instances report the same structure handle (the
+    handle is a checksum: different structures may share it) - and the definition is registered under its name; a second request
+    for the same instance uploads nothing."""
+    lx = _lx(ctx)
+    gsm, gdt = lx.methods["_get_structure_makeup"], lx.methods["_get_data_type"]
+    templates = {0x100: {"object_definition_size": 30, "structure_size": 8, "member_count": 2, "structure_handle": 0x5EED},
+                 0x200: {"object_definition_size": 40, "structure_size": 12, "member_count": 3, "structure_handle": 0x5EED},
+                 0x300: {"object_definition_size": 50, "structure_size": 16, "member_count": 4, "structure_handle": 0x1111}}
+    # ---- _get_structure_makeup
+    asked = []
+
+    def gm_hook(call, env, it):
+        # (only the addressed instance is looked at: the reply type is a structure class built at import time)
+        if attr_path(call.func) == "self.generic_message":
+            inst = next((it.ev(k.value, env) for k in call.keywords if k.arg == "instance"), None)
+            asked.append(inst)
+            return _resp(True, value=("attrs", inst), error=None)
+        return UNKNOWN
+
+    def parse_attrs(call, env, it):
+        if (call_name(call) or "") == "_parse_structure_makeup_attributes":
+            r = it.ev(call.args[0], env)
+            return dict(templates[r.value[1]])
+        return UNKNOWN
+
+    me = _me(_cache={"id:struct": {}, "handle:id": {}, "id:udt": {}}, _data_types={})
+    outs = []
+    for iid in (0x100, 0x200, 0x100, 0x300):
+        kind, res = run_function(ctx, lx.module, gsm, {"self": me, gsm.args.args[1].arg: iid}, call_hook=chain(parse_attrs, gm_hook), deep=False)
+        outs.append((kind, res))
+    key = ckey(lx.key + "._get_structure_makeup", "witness")
+    if any(k == "unknown" for k, _ in outs):
+        ctx.undecided(key, gsm, f"_get_structure_makeup not foldable: {[r for k, r in outs if k == 'unknown'][0]}")
+    else:
+        want = [("return", templates[i]) for i in (0x100, 0x200, 0x100, 0x300)]
+        ctx.check(outs == want and asked == [0x100, 0x200, 0x300] and me._cache["id:struct"] == templates, key, gsm, "each instance asked once, kept under its own id, returned as parsed",
+                  f"_get_structure_makeup for instances 0x100, 0x200, 0x100, 0x300 gives {outs!r} after asking {asked!r}; expected each instance's own attributes, asked once each")
+    # ---- _get_data_type
+    reads, parses = [], []
+
+    def hook(call, env, it):
+        path = attr_path(call.func) or ""
+        if path == "self._read_template":
+            a = [it.ev(x, env) for x in call.args]
+            reads.append(tuple(a))
+            return ("raw", a[0])
+        if path == "self._parse_template_data":
+            a = [it.ev(x, env) for x in call.args]
+            parses.append((a[0], a[1].get("structure_size"), a[2]))
+            return {"name": f"T{a[0][1]:x}", "from": a[0]}
+        return UNKNOWN
+
+    me = _me(_cache={"id:struct": {}, "handle:id": {}, "id:udt": {}}, _data_types={})
+    outs = []
+    for iid, st in ((0x100, 0x8100), (0x200, 0x8200), (0x100, 0x8100), (0x300, 0x8300), (0x200, 0x8200)):
+        # (_get_structure_makeup is folded as it stands - the two methods share the handle cache - down to the attribute request)
+        kind, res = run_function(ctx, lx.module, gdt, {"self": me, gdt.args.args[1].arg: iid, gdt.args.args[2].arg: st}, call_hook=chain(hook, parse_attrs, gm_hook), deep=False)
+        outs.append((kind, res))
+    key = ckey(lx.key + "._get_data_type", "witness")
+    if any(k == "unknown" for k, _ in outs):
+        ctx.undecided(key, gdt, f"_get_data_type not foldable: {[r for k, r in outs if k == 'unknown'][0]}")
+    else:
+        d = lambda i: {"name": f"T{i:x}", "from": ("raw", i)}  # noqa: E731
+        want = [("return", d(i)) for i in (0x100, 0x200, 0x100, 0x300, 0x200)]
+        diffs = []
+        if outs != want:
+            diffs.append(f"definitions returned {[r.get('name') if isinstance(r, dict) else r for _, r in outs]!r} (expected T100, T200, T100, T300, T200: every instance its own, also with a shared structure handle)")
+        if reads != [(0x100, 30), (0x200, 40), (0x300, 50)]:
+            diffs.append(f"templates read {reads!r} (expected each instance once with its own definition size)")
+        if [p_[1:] for p_ in parses] != [(8, 0x8100), (12, 0x8200), (16, 0x8300)] or [p_[0] for p_ in parses] != [("raw", 0x100), ("raw", 0x200), ("raw", 0x300)]:
+            diffs.append(f"parser calls {parses!r}")
+        if me._data_types != {"T100": d(0x100), "T200": d(0x200), "T300": d(0x300)}:
+            diffs.append(f"registered definitions {sorted(me._data_types)!r}")
+        ctx.check(not diffs, key, gdt, "five requests over three instances (two sharing a structure handle): each its own definition, uploaded once, registered by name", f"_get_data_type: {diffs[:2]}")
+
+
 # ---------------------------------------------------------------------------------------------------------------- socket framing
 def _socket_rule(ctx):
     """Socket.receive and Socket.send folded on witness TCP segmentations (the OS socket is a marker that hands out what is left of
@@ -1946,8 +2041,48 @@ def _route_rule(ctx):
         _report(ctx, ckey(fi, f"witness:{path!r}:auto_slot={auto}"), fn, f"route {path!r} (auto_slot={auto})", (kind, res), want, "parse_cip_route")
 
 
+def _conn_path_rule(ctx):
+    """parse_connection_path folded on witness path strings (the route parser is a marker that records what it is handed): `\\`
+    and `,` separate like `/`; the first element is the host, with an optional `:port` that must be a number in the TCP range
+    (0, negative, above 65535 and text are RequestError; no port gives None); everything after the host goes to the route parser
+    unchanged and in order, together with the caller's auto-slot flag; RequestError from the route parser passes through and any
+    other failure becomes RequestError."""
+    CDm = "pycomm3.cip_driver"
+    fi = ctx.model.func(f"{CDm}:parse_connection_path")
+    fn = fi.node
+    p = [a.arg for a in fn.args.args]
+    cases = [
+        ("10.0.0.1", False, ("return", ("10.0.0.1", None, ("ROUTE", [], False)))), ("10.0.0.1", True, ("return", ("10.0.0.1", None, ("ROUTE", [], True)))),
+        ("10.0.0.1/bp/1", False, ("return", ("10.0.0.1", None, ("ROUTE", ["bp", "1"], False)))), ("10.0.0.1\\bp\\1", False, ("return", ("10.0.0.1", None, ("ROUTE", ["bp", "1"], False)))),
+        ("10.0.0.1,bp,1", False, ("return", ("10.0.0.1", None, ("ROUTE", ["bp", "1"], False)))), ("10.0.0.1/bp\\1,enet/10.0.0.2", False, ("return", ("10.0.0.1", None, ("ROUTE", ["bp", "1", "enet", "10.0.0.2"], False)))),
+        ("plc.example.com/3", True, ("return", ("plc.example.com", None, ("ROUTE", ["3"], True)))), ("10.0.0.1:5000", False, ("return", ("10.0.0.1", 5000, ("ROUTE", [], False)))),
+        ("10.0.0.1:5000/1/2", False, ("return", ("10.0.0.1", 5000, ("ROUTE", ["1", "2"], False)))), ("10.0.0.1:1", False, ("return", ("10.0.0.1", 1, ("ROUTE", [], False)))),
+        ("10.0.0.1:65534/bp/0", False, ("return", ("10.0.0.1", 65534, ("ROUTE", ["bp", "0"], False)))), ("10.0.0.1:44818", True, ("return", ("10.0.0.1", 44818, ("ROUTE", [], True)))),
+        ("10.0.0.1:0", False, ("raise", "RequestError")), ("10.0.0.1:-5", False, ("raise", "RequestError")), ("10.0.0.1:65536", False, ("raise", "RequestError")), ("10.0.0.1:70000/bp/1", False, ("raise", "RequestError")),
+        ("10.0.0.1:abc", False, ("raise", "RequestError")), ("10.0.0.1:", False, ("raise", "RequestError")), ("10.0.0.1:1:2", False, ("raise", "RequestError")), ("10.0.0.1/<bad route>", False, ("raise", "RequestError")),
+        ("10.0.0.1/<route parser fails>", False, ("raise", "RequestError")), (None, False, ("raise", "RequestError")),
+    ]
+    for path, auto, want in cases:
+        def hook(call, env, it):
+            if (call_name(call) or "") == "parse_cip_route" and isinstance(call.func, ast.Name):
+                a = [it.ev(x, env) for x in call.args] + [it.ev(k.value, env) for k in call.keywords]
+                route = a[0]
+                if route == ["<bad route>"]:
+                    raise _Raise("RequestError")
+                if route == ["<route parser fails>"]:
+                    raise _Raise("ValueError")
+                return ("ROUTE", list(route) if isinstance(route, (list, tuple)) else route, a[1] if len(a) > 1 else "<default>")
+            return UNKNOWN
+
+        kind, res = run_function(ctx, fi.module, fn, {p[0]: path, p[1]: auto}, call_hook=hook, deep=False)
+        res = tuple(res) if kind == "return" and isinstance(res, (list, tuple)) else res
+        _report(ctx, ckey(fi, f"witness:{path!r}:auto_slot={auto}"), fn, f"connection path {path!r} (auto_slot={auto})", (kind, res), want, "parse_connection_path")
+
+
+rule("C15", "D15.12", "T-WITNESS", floor=20)(_conn_path_rule)
 rule("C09", "D9.11", "T-WITNESS", floor=30)(_segment_rule)
 rule("C15", "D15.10", "T-WITNESS", floor=30)(_segment_rule)
+rule("C14", "D14.12", "T-WITNESS", floor=30)(_segment_rule)
 rule("C15", "D15.11", "T-WITNESS", floor=12)(_route_rule)
 
 
@@ -2210,6 +2345,47 @@ def _session_rule(ctx):
         ctx.check(not diffs, key, fn, f"open(), {label}: {want[0]} {want[1]!r}", f"open() with {label}: {diffs[:2]}")
 
 
+def _context_rule(ctx):
+    """The context manager folded on witnesses (open / close are markers that see the driver's state when they are called):
+    `__enter__` opens and returns the driver itself; `__exit__` calls close exactly once whatever leaves the block (nothing, any
+    exception, CommError) - with the connected flag and the session handle still as the block left them, so that close can send
+    the Forward Close and UnRegister Session they stand for; it returns True only for a clean block, and a CommError out of close
+    is swallowed (False) rather than raised over the block's own exception."""
+    cd = _cd(ctx)
+    en, ex = cd.methods["__enter__"], cd.methods["__exit__"]
+    opened = []
+    me = Obj(_ci=cd, _target_is_connected=False, _session=0)
+    kind, res = run_function(ctx, cd.module, en, {"self": me}, call_hook=self_call("open", lambda a, k: opened.append(1) or True), deep=False)
+    key = ckey(cd.key + ".__enter__", "witness")
+    if kind == "unknown":
+        ctx.undecided(key, en, f"__enter__ not foldable: {res}")
+    else:
+        ctx.check(kind == "return" and res is me and opened == [1], key, en, "__enter__ opens once and returns the driver", f"__enter__ gives {kind} {res!r} after {len(opened)} open() call(s)")
+    p = [a.arg for a in ex.args.args]
+    for label, exc, close_fails, want in (("clean block", None, False, True), ("block left by ValueError", "ValueError", False, False), ("block left by CommError", "CommError", False, False),
+                                           ("clean block, close fails", None, True, False), ("block left by CommError, close fails", "CommError", True, False)):
+        seen = []
+        me = Obj(_ci=cd, _target_is_connected=True, _session=0x1234, _sock=Obj(kind="socket"), _connection_opened=True)
+
+        def close(a, k, me=me, seen=seen, close_fails=close_fails):
+            seen.append((me._target_is_connected, me._session))
+            if close_fails:
+                raise _Raise("CommError")
+            return None
+
+        exc_t = Obj(kind="exception-class", name=exc) if exc else None
+        env = {"self": me, p[1]: exc_t, p[2]: (f"<{exc}>" if exc else None), p[3]: ("<traceback>" if exc else None)}
+        kind, res = run_function(ctx, cd.module, ex, env, call_hook=self_call("close", close), deep=False)
+        key = ckey(cd.key + ".__exit__", f"witness:{label}")
+        if kind == "unknown":
+            ctx.undecided(key, ex, f"__exit__ not foldable ({label}): {res}")
+            continue
+        ok = kind == "return" and bool(res) is want and seen == [(True, 0x1234)]
+        ctx.check(ok, key, ex, f"{label}: close() once with the state the block left, returns {want}",
+                  f"__exit__ ({label}) gives {kind} {res!r}; close() was called {len(seen)} time(s) seeing (connected, session) = {seen!r}; expected one call seeing (True, 0x1234) - the flags tell close which of Forward Close / UnRegister Session to send - and {want}")
+
+
+rule("C10", "D10.14", "T-WITNESS", floor=6)(_context_rule)
 rule("C10", "D10.13", "T-WITNESS", floor=10)(_session_rule)
 rule("C11", "D11.11", "T-WITNESS", floor=10)(_session_rule)
 rule("C10", "D10.11", "T-WITNESS", floor=20)(_close_rule)
